@@ -1122,10 +1122,12 @@ func rootOverlap(seed uint64, budget time.Duration) {
 		poison := r.Bool()
 		type plan struct{ delays []time.Duration }
 		plans := make([]plan, nsp)
+		var planText []string
 		for i := range plans {
 			for j := 1 + r.Intn(2); j > 0; j-- {
 				plans[i].delays = append(plans[i].delays, time.Duration(100+r.Intn(1900))*time.Microsecond)
 			}
+			planText = append(planText, fmt.Sprint(plans[i].delays))
 		}
 		var wg sync.WaitGroup
 		var mu sync.Mutex
@@ -1242,8 +1244,8 @@ func rootOverlap(seed uint64, budget time.Duration) {
 		}
 		if len(problems) > 0 {
 			violations++
-			mon("tree", fmt.Sprintf("root-overlap round %d: the root had %d child(ren), all killed (poison=%v, %v after the spawners started) while %d goroutines called System.ActorOf (OnPrelaunch delays %v); at quiescence registry / children / parent disagree:\n%s",
-				rounds, k, poison, jitter, nsp, plans, strings.Join(dedup(problems), "\n")))
+			mon("tree", fmt.Sprintf("root-overlap round %d: the root had %d child(ren), all killed (poison=%v, %v after the spawners started) while %d goroutines called System.ActorOf (OnPrelaunch delays per goroutine: %s); at quiescence registry / children / parent disagree:\n%s",
+				rounds, k, poison, jitter, nsp, strings.Join(planText, " "), strings.Join(dedup(problems), "\n")))
 		}
 		// the survivors are the next round's children of the root
 		keep := []int{0, 1, 1, 1, 2, 2}[r.Intn(6)]
